@@ -67,6 +67,8 @@ class FieldInfo:
 
     def cls_key(self) -> str:
         """kind/label descriptor used in mechanism signatures"""
+        if self.label == "map" and self.map_key is not None and self.map_value is not None:
+            return f"map<{self.map_key.kind},{self.map_value.wkt or self.map_value.kind}>"
         k = self.wkt or self.kind
         return f"{k}/{self.label}"
 
